@@ -179,7 +179,7 @@ def run(chk):
                     if not outside:
                         chk.finding(key + "|cover|bb-skip", rule="R-COVER", where="%s:%s" % (b.file, tt["line"]), fn=key,
                                     what="a visible layer is skipped on a branch where the position is not provably outside its rectangle")
-            chk.floor("R-COVER", "extent-test skip edges", nskip, 4)
+            chk.floor("R-COVER", "extent-test skip edges", nskip, 2)
     # ------------------------------------------------------------------ R-OPAQUE
     # the Mode switch after the layer's get_char; arm value 0 = Normal
     elem_calls = [x for x in layer_calls if x[3]]
